@@ -61,6 +61,8 @@ type Input struct {
 type Case struct {
 	Case  string `json:"case"`
 	Input Input  `json:"input"`
+	// Cli: also run the coca binary (always done when the sort option is on: cmd/bs.go is the only caller of the sort)
+	Cli bool `json:"cli"`
 }
 
 type MFacts struct {
@@ -93,6 +95,7 @@ type ObsGroup struct {
 }
 
 type Cli struct {
+	Ran        bool       `json:"ran"`
 	Failed     bool       `json:"failed"`
 	Wellformed bool       `json:"wellformed"`
 	Grouped    bool       `json:"grouped"`
@@ -351,7 +354,10 @@ func one(raw json.RawMessage) interface{} {
 		o.Note = short(msg, 300)
 	}
 	// the coca binary: ignore list and sort option as the user passes them
-	viaCLI(scratch, root, c.Input, &o.Cli)
+	if c.Cli || c.Input.Sort {
+		o.Cli.Ran = true
+		viaCLI(scratch, root, c.Input, &o.Cli)
+	}
 	return rec
 }
 
@@ -361,6 +367,7 @@ func abnormal(raw json.RawMessage, timeout bool, stderr string) interface{} {
 	normalize(&c.Input)
 	o := emptyObs()
 	o.Panic = true
+	o.Cli.Ran = true
 	o.Cli.Failed = true
 	o.Note = short(stderr, 300)
 	if timeout {
